@@ -264,6 +264,12 @@ def oracle_polygon(t1, t2, plane, poly, tol_rel=1e-9):
         neg = any(c < -tol for c in cr)
         if pos and neg:
             bad.append(("not-convex", {"cross": cr}))
+        # orientation: the vertices are documented as counter-clockwise, i.e. the signed area about the REPORTED normal is
+        # the non-negative area the property speaks of (computed in 3D, independent of any plane basis)
+        c0 = poly.mean(axis=0)
+        signed = 0.5 * float(sum(np.dot(np.cross(poly[k] - c0, poly[(k + 1) % m] - c0), n) for k in range(m)))
+        if signed < -1e-9 * scale * scale and not (pos and neg):
+            bad.append(("clockwise-about-normal", {"signed_area": signed}))
         # a polygon that winds more than once is also not convex: total turning must be one revolution
         if not (pos and neg) and m >= 4 and ext > 0:
             ang = 0.0
@@ -625,6 +631,57 @@ def run_bodies_inplace(s1, s2):
     return out
 
 
+def details_consistency(s1, s2):
+    """contact_forces(..., return_details=True) reports the contact surface in the WORLD frame: every polygon vertex
+    must lie on its reported plane (n . x = d) and inside both reported tetrahedra there as well"""
+    hc, _, _, _ = impl()
+    bad = []
+    try:
+        out = hc.contact_forces(make_body(s1), make_body(s2), return_details=True)
+    except Exception as e:  # noqa
+        return [("raised", {"err": err_name(e), "msg": str(e)[:200]})]
+    if not out[0]:
+        return []
+    det = out[3]
+    planes = np.asarray(det["contact_planes"], dtype=float).reshape(-1, 4)
+    T1 = np.asarray(det["intersecting_tetrahedra1"], dtype=float)
+    T2 = np.asarray(det["intersecting_tetrahedra2"], dtype=float)
+    # the same surface in the frame it was computed in (fresh bodies): what is already off there (the recorded
+    # degenerate-polygon findings) is judged by the per-pair oracle, not here; this check is about the transformation
+    b1, b2 = make_body(s1), make_body(s2)
+    cs = hc.find_contact_surface(b1, b2)
+    bp = np.asarray(cs.contact_planes, dtype=float).reshape(-1, 4)
+    bt1 = b1.tetrahedra_points[np.asarray(cs.intersecting_tetrahedra1, dtype=int)]
+    bt2 = b2.tetrahedra_points[np.asarray(cs.intersecting_tetrahedra2, dtype=int)]
+    if len(cs.contact_polygons) != len(det["contact_polygons"]):
+        return [("polygon-count", {"details": len(det["contact_polygons"]), "find_contact_surface": len(cs.contact_polygons)})]
+
+    def measures(P, plane, ta, tb):
+        r = float(np.max(np.abs(P.dot(plane[:3]) - plane[3])))
+        mm = []
+        for T in (ta, tb):
+            m = [bary_min(T, p) for p in P]
+            m = [x for x in m if x is not None]
+            mm.append(min(m) if m else 0.0)
+        return r, mm
+    for k, poly in enumerate(det["contact_polygons"]):
+        P = np.asarray(poly, dtype=float).reshape(-1, 3)
+        Pb = np.asarray(cs.contact_polygons[k], dtype=float).reshape(-1, 3)
+        if not len(P) or len(P) != len(Pb):
+            continue
+        scale = max(1.0, float(np.max(np.abs(P))), float(np.max(np.abs(T1[k]))), float(np.max(np.abs(T2[k]))))
+        r, mm = measures(P, planes[k], T1[k], T2[k])
+        rb, mb = measures(Pb, bp[k], bt1[k], bt2[k])
+        if r > 1e-8 * scale + 10.0 * rb:
+            bad.append(("vertex-off-plane", {"polygon": k, "residual": r, "residual_in_body_frame": rb,
+                                             "plane": planes[k].tolist()}))
+            continue
+        for which, a, b in (("tet1", mm[0], mb[0]), ("tet2", mm[1], mb[1])):
+            if a < -1e-7 and a < b - 1e-6:
+                bad.append(("vertex-outside-" + which, {"polygon": k, "min_barycentric": a, "in_body_frame": b}))
+    return bad
+
+
 def check_bodies(ctx, s1, s2, separated, stream, s3=None):
     """oracle on one body pair.  `separated` = the bodies are disjoint by construction."""
     r = run_bodies(s1, s2, s3)
@@ -680,6 +737,12 @@ def check_bodies(ctx, s1, s2, separated, stream, s3=None):
                 len(p) == 3 and p[0] == p[1] == p[2] for p in r["polys"])) else None
             ctx.fail(fn + ":intersection-for-separated-bodies", args, {"n_polygons": npoly}, "intersection False",
                      "bodies disjoint by construction", finding=fid)
+    if s3 is None:
+        bad_d = details_consistency(s1, s2)
+        for what, detail in bad_d[:3]:
+            ctx.fail("contact_forces(return_details=True):" + what, args, detail, "C15 statement in the world frame",
+                     "world-frame polygons lie on their world-frame planes and inside the world-frame tetrahedra",
+                     finding=None)
     if s3 == "inplace" and not stream.startswith("BL"):
         # the same configuration on freshly built bodies (random poses only: on the lattice the frame-dependent tie
         # findings would blur the comparison): same flag, same total contact area, same wrenches
